@@ -122,6 +122,9 @@ def cmd_confirm(name):
 def cmd_detect(name, props):
     d = os.path.join(VERIF, 'seeded', name)
     m = load(name)
+    tier = 'quick'
+    if props and props[0] in ('quick', 'thorough'):
+        tier = props[0]; props = props[1:]
     props = props or [m['property']]
     rc, out = sh('git -C %s status --porcelain' % REPO)
     if out.strip():
@@ -132,10 +135,11 @@ def cmd_detect(name, props):
     det = m.get('detection', {})
     try:
         for p in props:
-            rc, out = sh('./check %s --tier quick' % p, cwd=VERIF, timeout=3600)
+            rc, out = sh('./check %s --tier %s' % (p, tier), cwd=VERIF, timeout=7200)
             lines = [l for l in out.split('\n') if l.startswith(('VIOLATION', 'UNDECIDED', 'OK', 'KNOWN-FINDING', '  obligation'))]
-            det[p] = {'rc': rc, 'verdict': {0: 'MISSED (exit 0)', 1: 'DETECTED', 2: 'UNDECIDED'}.get(rc, str(rc)), 'lines': lines[:12]}
-            print(name, p, det[p]['verdict'])
+            key = p if tier == 'quick' else p + ' (thorough)'
+            det[key] = {'rc': rc, 'verdict': {0: 'MISSED (exit 0)', 1: 'DETECTED', 2: 'UNDECIDED'}.get(rc, str(rc)), 'lines': lines[:12]}
+            print(name, key, det[key]['verdict'])
             for l in lines[:6]: print('   ', l[:220])
     finally:
         sh('git -C %s checkout -- .' % REPO)
